@@ -260,8 +260,10 @@ CLAIMED["C10"] = {
             "source at its recorded position (C10_tokens_are_pieces_of_the_source, by an invariant over the scanning loop with a split "
             "lemma per token rule); the LR driver - whatever the tables - returns a parse tree whose leaves are exactly the accepted "
             "tokens in order (C10_parse_tree_yields_the_tokens); outcomes are a program, a syntax error or 'outside the model'. "
-            "Obligations over regenerated tables: token rule order, regex texts, t_ignore; grammar size and automaton. NOT proved: "
-            "the round-trip / layout-irrelevance half (completeness of the LALR automaton and lexer boundary lemmas); it is covered "
+            "Obligations over regenerated tables: token rule order, regex texts, t_ignore; grammar size and automaton. The round trip "
+            "is PROVED for the canonical layout the serialiser writes (every program, see C15_serialise_parse: lexer boundary "
+            "lemmas + simulation of the LALR automaton + semantic actions). NOT proved: layout irrelevance, i.e. the same for "
+            "every other rendering (comments, arbitrary blanks and line breaks, trailing commas, single quotes, unquoted text); it is covered "
             "by differential runs only: random programs x layouts, corruptions, token soups, unquoted multi-word values, compared "
             "with the real parser node for node, line numbers included.",
     "note": PARSER_NOTE + " Code limitation modelled faithfully and not counted as a violation of well-formed renderings: unquoted "
@@ -284,19 +286,29 @@ CLAIMED["C11"] = {
 }
 
 CLAIMED["C15"] = {
-    "text": "PARTIAL. Rocq theorems about a Gallina model of Program.to_string (Model/Serial.v: the whole serialiser - value dispatch, "
-            "quoting, lists, metadata dictionaries, command layout) composed with the lexer / parser model of C10: for EVERY string "
-            "(quotes, backslashes, delimiters, tabs, line breaks, any code point) the quoted text is taken by the master regex as "
-            "one STRING token whatever follows, and decodes to the string (C15_quoted_string_is_one_token, C15_string_roundtrip); for "
-            "EVERY integer of any magnitude and sign the digits are one INT token when no digit or dot follows and are read back as "
-            "that integer (C15_integer_is_one_token, C15_integer_roundtrip). NOT proved: the round trip of a whole program through "
-            "the LALR automaton (parser completeness, see C10) and anything about float texts (repr/float are oracles). The whole "
-            "composition is covered by differential runs: ser_program vs to_string character for character, the parser model vs the "
-            "real parser on that text, and the oracle P vs from_source(P.to_string()): command order, classes, argument names, "
-            "cleaned values bit for bit, results of the runnable part; programs built from source and through add_command.",
+    "text": "Rocq theorems about a Gallina model of Program.to_string (Model/Serial.v: the whole serialiser - value dispatch, quoting, "
+            "lists, metadata dictionaries, command layout) composed with the lexer / LR-parser / semantic-action model of C10. THE WHOLE "
+            "ROUND TRIP at the level of the parsed program (C15_serialise_parse): for EVERY non-empty program - any number of commands "
+            "and arguments, strings of any content (quotes, backslashes, delimiters, line breaks, any code point), integers of any "
+            "magnitude, float texts of FLOAT shape, booleans, references, lists nested to any depth, metadata dictionaries - whose "
+            "names are identifiers, the serialised text is split by the lexer model into exactly the tokens of the program "
+            "(C15_text_is_the_tokens: per-token boundary lemmas for strings, integers, floats, identifiers, punctuation, blanks and line "
+            "breaks), the LR driver over the LALR tables PLY generated for the snapshot accepts them and the semantic actions return a "
+            "version-3 program with the same commands in order, the same result, command and argument names and the same values, lines "
+            "erased (C15_parser_accepts_the_tokens: simulation lemmas per syntactic category, by induction over nested lists and over "
+            "the right-recursive argument, element, pair and command lists; every table look-up is computed from the regenerated "
+            "tables, the fuel of the driver is shown sufficient); metadata with distinct keys comes back as the same pairs "
+            "(C15_metadata). PARTIAL only in: float VALUES (repr/float are oracles), and the composition with cleaning (C20) and "
+            "running (C01/C02), which is covered by the oracle. Tied by differential runs: ser_program vs to_string character for "
+            "character, the parser model vs the real parser on that text, and P vs from_source(P.to_string()): command order, "
+            "classes, argument names, cleaned values bit for bit, results of running both; programs built from source and through "
+            "add_command, with other command files loaded in the process between round trips; the evidence counts how many "
+            "generated programs meet the theorem's hypotheses.",
     "note": PARSER_NOTE + " repr(float), str(float), float(text) are oracles. The abstract program handed to ser_program is read off the "
-            "live Program object by Python type in drivers/c15_driver.py.",
-    "technique": "Rocq proof (string and integer round trip through serialiser, lexer and decoder, for all values) + differential correspondence for the whole program",
+            "live Program object by Python type in drivers/c15_driver.py. Names that are not identifiers are outside the theorem's "
+            "hypothesis (the loader produces none). A change of the grammar or of PLY's table construction re-generates the tables "
+            "and the simulation lemmas are re-checked against them (they may then break although the property holds).",
+    "technique": "Rocq proof (end-to-end round trip: serialiser, lexer, LALR automaton over regenerated tables, semantic actions; for all programs) + differential correspondence and reload oracle",
     "design": "DESIGN.md section 4 C15",
 }
 
